@@ -24,6 +24,7 @@
   nothing); steps 1–2 only widen what is reported when something is wrong.  Core-only.
 -/
 import BMV.Vlog.Lint
+import BMV.Vlog.Wf
 namespace BMV.Vlog
 
 structure Finding where
@@ -220,6 +221,8 @@ def lintRoot (mods : List Module) (m : Module) (synthetic : List String) : Bool 
   | .error e => (false, [⟨lintClass e, m.name, e⟩])
   | .ok d =>
     let insts := instNames m
+    -- the hypothesis of `BMV.Props.C18.wf_total_of_resolved`, re-checked on every elaborated design
+    if !d.Resolved then (false, [⟨"internal", m.name, "elaborate returned a design that is not Resolved (identifier, `for` or out-of-range signal index left)"⟩]) else
     (true, d.lint.filterMap fun msg =>
       let subj := lintSubject msg
       if !ownName insts subj then none
@@ -261,55 +264,5 @@ def Source.check (src : Source) (opq ext : List String) : CheckResult := Id.run 
     if ok then elaborated := elaborated + 1 else broken := m.name :: broken
     for f in fs do out := out.push f
   pure { findings := out.toList.eraseDups, elaborated, roots := topCandidates src }
-
-/-! ## predicates used by the partial soundness theorems (BMV.Props.C18) -/
-
--- `closed e`: no source-level identifier is left in `e` (what `resolveExpr` establishes)
-mutual
-def closed : Expr → Bool
-  | .id _ => false
-  | .num _ _ => true
-  | .sig _ => true
-  | .idx b i => closed b && closed i
-  | .rng b m l => closed b && closed m && closed l
-  | .ipart b s w _ => closed b && closed s && closed w
-  | .cat es => closedL es
-  | .rep n es => closed n && closedL es
-  | .un _ e => closed e
-  | .bin _ a b => closed a && closed b
-  | .cond c a b => closed c && closed a && closed b
-def closedL : List Expr → Bool
-  | [] => true
-  | e :: es => closed e && closedL es
-end
-
-
-/-- signal `i` exists and is a scalar or vector (not a memory) -/
-def okSig (sigs : Array Sig) (i : Nat) : Bool :=
-  match sigs[i]? with
-  | some s => s.depth == 0
-  | none => false
-
--- `simple sigs e`: identifier-free, over existing non-memory signals, without selects and without
--- division / modulo, replication counts literal: the fragment on which evaluation is proved total
-mutual
-def simple (sigs : Array Sig) : Expr → Bool
-  | .num _ _ => true
-  | .sig i => okSig sigs i
-  | .cat es => simpleL sigs es
-  | .rep (.num _ _) es => simpleL sigs es
-  | .un _ e => simple sigs e
-  | .bin op a b => op != .div && op != .mod && simple sigs a && simple sigs b
-  | .cond c a b => simple sigs c && simple sigs a && simple sigs b
-  | _ => false
-def simpleL (sigs : Array Sig) : List Expr → Bool
-  | [] => true
-  | e :: es => simple sigs e && simpleL sigs es
-end
-
-/-- the state has storage (at least word 0) for every signal of the design -/
-def StateOk (sigs : Array Sig) (st : State) : Prop :=
-  ∀ (i : Nat) (s : Sig), sigs[i]? = some s → ∃ (a : Array Nat) (v : Nat), st[i]? = some a ∧ a[0]? = some v
-
 
 end BMV.Vlog
